@@ -6,6 +6,7 @@
   (3) the request dispatcher answers every request (Server model).
 -/
 import Vlsp.Model.Sites
+import Vlsp.Model.Parsers
 import Vlsp.GeneratedSites
 import Vlsp.Props.C18
 
@@ -336,6 +337,58 @@ theorem c06_unquote_ok (q : Char) (body : Text) (hq : utf8Len q = 1) :
     simp [byteLen, byteLen_append, hq]; omega
   rw [l2, e]; conv => lhs; arg 2; rw [← l1]
   exact slice_append _ _ _
+
+theorem startsWith_singleton (t : Text) (q : Char) (h : startsWith t [q] = true) : ∃ r, t = q :: r := by
+  unfold startsWith at h
+  cases t with
+  | nil => simp [stripPrefix] at h
+  | cons c cs =>
+    by_cases hc : (q == c) = true
+    · exact ⟨cs, by have : q = c := by simpa using hc
+                    rw [this]⟩
+    · simp [stripPrefix, hc] at h
+
+theorem endsWith_singleton (t : Text) (q : Char) (h : endsWith t [q] = true) : ∃ r, t = r ++ [q] := by
+  unfold endsWith stripSuffix at h
+  have : startsWith t.reverse [q] = true := by
+    unfold startsWith
+    simpa using h
+  obtain ⟨r, hr⟩ := startsWith_singleton t.reverse q this
+  exact ⟨r.reverse, by have := congrArg List.reverse hr; simpa using this⟩
+
+/-- the unquoting guard the code has now (`len >= 2 && starts_with(q) && ends_with(q)`): the slice
+    `[1..len-1]` cannot panic and is the text between the quotes — no assumption about tree-sitter is needed -/
+theorem c06_unquote_guarded (t : Text) (h : Parsers.quotedText t = true) :
+    ∃ q body, t = q :: (body ++ [q]) ∧ slice t 1 (byteLen t - 1) = some body := by
+  unfold Parsers.quotedText at h
+  simp only [Bool.and_eq_true, Bool.or_eq_true, Nat.ble_eq] at h
+  obtain ⟨hlen, hq⟩ := h
+  have key : ∀ q : Char, utf8Len q = 1 → startsWith t [q] = true → endsWith t [q] = true →
+      ∃ body, t = q :: (body ++ [q]) ∧ slice t 1 (byteLen t - 1) = some body := by
+    intro q hq1 hs he
+    obtain ⟨r, hr⟩ := startsWith_singleton t q hs
+    obtain ⟨r', hr'⟩ := endsWith_singleton t q he
+    cases r with
+    | nil => subst hr; simp [byteLen, hq1] at hlen
+    | cons c cs =>
+      -- the last character of `q :: c :: cs` is the last of `c :: cs`
+      have hlast : (c :: cs).getLast? = some q := by
+        have h1 : t.getLast? = some q := by rw [hr']; simp
+        rw [hr] at h1
+        simpa [List.getLast?_cons_cons] using h1
+      obtain ⟨body, hb⟩ : ∃ body, c :: cs = body ++ [q] := by
+        have hne : (c :: cs) ≠ [] := by simp
+        have hcat := List.dropLast_concat_getLast hne
+        have h2 := List.getLast?_eq_some_getLast hne
+        rw [hlast] at h2
+        have hq' : (c :: cs).getLast hne = q := (Option.some.inj h2).symm
+        exact ⟨(c :: cs).dropLast, by rw [← hq']; exact hcat.symm⟩
+      refine ⟨body, by rw [hr, hb], ?_⟩
+      rw [hr, hb]
+      exact c06_unquote_ok q body hq1
+  rcases hq with ⟨hs, he⟩ | ⟨hs, he⟩
+  · obtain ⟨body, h1, h2⟩ := key '\'' (by decide) hs he; exact ⟨_, body, h1, h2⟩
+  · obtain ⟨body, h1, h2⟩ := key '"' (by decide) hs he; exact ⟨_, body, h1, h2⟩
 
 /-! ### the dispatcher -/
 
